@@ -462,3 +462,46 @@ func VH_c12_sort_by_key() {
 	zz.Assert(eqs(iterator.Sort(src(in), ord)), "iterator.Sort = seq.Sort, tied elements in the same order")
 	zz.Assert(eqs(list.Sort(lsrc(in), ord)), "list.Sort = seq.Sort, tied elements in the same order")
 }
+
+// A list is a value: whatever consumer ran over it (Sort, Min/Max, a ToSeq whose result the caller then
+// writes into), the same list yields the same elements in the same order again.
+func VH_c12_list_reobserved_after_consumers() {
+	in := zz.SliceInt("in", zz.Bound("inlen12r", 3, 4), 0, 0)
+	var l fp.List[int]
+	switch zz.Choice("repr", 3) {
+	case 0:
+		l = list.FromSeq(append([]int{}, in...))
+	case 1:
+		l = list.Of(append([]int{}, in...)...)
+	case 2:
+		l = list.Empty[int]()
+		for i := len(in) - 1; i >= 0; i-- {
+			l = list.Concat(in[i], l)
+		}
+	}
+	key := func(x int) int { return zz.UFInt("key", x) }
+	ord := fp.LessFunc[int](func(a, b int) bool { return key(a) < key(b) })
+	switch zz.Choice("consumer", 4) {
+	case 0:
+		list.Sort(l, ord)
+	case 1:
+		s := l.ToSeq()
+		for i := range s {
+			s[i] = s[i] + 1
+		}
+	case 2:
+		list.Min(l, ord)
+		list.Max(l, ord)
+	case 3:
+		t := l.Tail().ToSeq()
+		if len(t) > 0 {
+			t[0]++
+		}
+	}
+	zz.Assert(sliceEq(l.ToSeq(), in), "the list yields the same elements after a consumer ran over it (ToSeq)")
+	var walked []int
+	for c := l; c.NonEmpty(); c = c.Tail() {
+		walked = append(walked, c.Head())
+	}
+	zz.Assert(sliceEq(walked, in), "the list yields the same elements after a consumer ran over it (Head/Tail)")
+}
